@@ -124,6 +124,30 @@ def summary_obligations(res: CheckResult, results):
 IDX_RULES = {'IDX-DOMAIN', 'IDX-FRESH', 'IDX-ADVANCE', 'LOOP-INVARIANT-IDX'}
 
 
+def merge_asserts(res: CheckResult, repo: str, want_c=None):
+    """assert statements in merge methods (and the tree helpers they use) vanish under python -O: whatever they guard
+    (a duplicate reference, a missing node) then hits the mutation code unvalidated."""
+    import ast as _ast
+    prog = program(repo)
+    res.rules['NO-ASSERT'] = 'no assert statement guards a merge or a tree helper (python -O removes it and the guarded input reaches the edits)'
+    n = 0
+    for f in prog.all_functions():
+        in_scope = (f.cls is not None and f.cls.name in schema.ROLES and (want_c is None or want_c(f.cls.name))) or f.module.name.endswith('utils.xml')
+        if not in_scope:
+            continue
+        n += 1
+        for a in _ast.walk(f.node):
+            if isinstance(a, _ast.Assert):
+                res.add('NO-ASSERT', f.short, norm_text(a)[:120], False,
+                        'validation written with assert disappears under python -O: the input it rejects then reaches the mutation code', f.file, a.lineno)
+    res.add('NO-ASSERT', 'merges', f'assert statements in {n} merge / helper functions', True)
+
+
+def norm_text(node):
+    from .front import norm as _norm
+    return _norm(node)
+
+
 def order_property(prop: str, lvl: str, repo: str, tier: str) -> CheckResult:
     res = CheckResult(prop, tier)
     res.rules = {k: RULES[k] for k in ('IDX', 'IDX-DOMAIN', 'IDX-FRESH', 'IDX-ADVANCE', 'LOOP-INVARIANT-IDX', 'CONSERVE', 'ENUM-PER-ID',
@@ -163,6 +187,7 @@ def order_property(prop: str, lvl: str, repo: str, tier: str) -> CheckResult:
         add_findings(res, results, {'STORY-SCOPED'}, want)
     summary_obligations(res, results)
     stale_cache(res, repo, merges=True)
+    merge_asserts(res, repo, want_c)
     res.floors = {'IDX': 8 if lvl == 'story' else 5, 'SEARCH-SUMMARY': 1, 'CONSERVE': 4}
     what = 'story' if lvl == 'story' else 'item'
     res.explanation = (
@@ -264,6 +289,7 @@ def prop_C05(repo, tier):
         for f in r['findings']:
             if f['rule'] == 'VALIDATE-BEFORE-MUTATE':
                 res.add(as_rule(f), f['func'], f['construct'], False, '[message not schema-shaped] ' + f['detail'], f['file'], f['line'], f['witness'])
+    merge_asserts(res, repo)
     stale_cache(res, repo, merges=True)
     res.floors = {'VALIDATE-BEFORE-MUTATE': 40, 'MAY-ALIAS-REMOVE': 10}
     res.explanation = (
@@ -298,6 +324,9 @@ def prop_C06(repo, tier):
     add_findings(res, results, {'LIVE-ITER'}, as_rule=lambda f: 'NO-EARLY-EXIT')
     # "every ID listed is acted upon": a move that found its target and sources must not return without editing, a delete must remove what it found
     add_findings(res, results, {'MOVE-ACTS', 'DELETE-REMOVES'}, as_rule=lambda f: 'NO-EARLY-EXIT')
+    res.rules['ALWAYS-DISPATCH'] = 'RunningOrder.__add__ hands every message to its merge() unless the running order is completed (then it raises): no message is dropped without a trace'
+    res.add('ALWAYS-DISPATCH', 'RunningOrder.__add__', 'normal returns of ro + message', True)
+    add_findings(res, results, {'ALWAYS-DISPATCH'})
     stale_cache(res, repo, merges=True)
     res.floors = {'MISS-REPORTED': 22, 'WARN-CATEGORY': 5}
     res.explanation = (
@@ -568,6 +597,10 @@ def prop_C20(repo, tier):
     results = collect_merge(res, repo)
     add_sites(res, results, 'explicit-id', 'ID-FALLBACK')
     add_findings(res, results, {'ENUM-PER-ID', 'ID-FALLBACK'})
+    # StorySend.story exposes the converted story: the index typestate of the conversion decides whether its items come out in message order
+    res.rules['CONVERT-ORDER'] = 'the roStorySend conversion behind StorySend.story keeps the carried paragraphs and items in message order (index typestate of the splice)'
+    res.add('CONVERT-ORDER', 'StorySend._convert_story_send_to_story_tag', 'splice of the storyBody children', True)
+    add_findings(res, results, IDX_RULES | {'SPLICE'}, want=lambda c, f: 'convert' in f['func'], as_rule=lambda f: 'CONVERT-ORDER')
     from . import schema as sch
     macc = {r['name']: r for r in null_one(res, repo, 'msgaccessors')}
     insp = {r['name']: r for r in null_one(res, repo, 'inspect')}
@@ -648,7 +681,8 @@ def prop_C08(repo, tier):
     res.rules['CLASS-SET'] = 'the classes classification can return are exactly the documented concrete classes'
     prog = program(repo)
     allowed_reads = {('#root', t, 'direct') for t in sch.DOCUMENTED_TAGS} | {('roElementAction', 'element_target', 'direct'),
-                                                                            ('roElementAction', 'element_source', 'direct')}
+                                                                            ('roElementAction', 'element_source', 'direct'),
+                                                                            ('element_target', 'itemID', 'direct'), ('element_source', 'itemID', 'direct')}
     expected = (set(sch.DOCUMENTED_TAGS.values()) - {'ElementAction'}) | set(sch.EA_TABLE.values())
     for r in null_one(res, repo, 'classify'):
         entry = 'MosFile.' + r['name']
